@@ -1,19 +1,953 @@
-"""Abstract (unbounded) sequences and sets: MapFilter normal forms, BigSum, quantified membership (DESIGN 3.2, 3.4).
+"""Abstract (unbounded) sequences, sets and dictionaries: the sequence layer (DESIGN Part II 3.2/3.4, built as Part I.11).
 
-Placeholder until the sequence layer is built: every entry point reports out-of-subset, which makes the affected
-obligation *undecided* (never discharged, never a violation).
+An abstract list `AL` has a symbolic index domain [0, n), a *generic index* constant `kvar`, a presence formula over
+`kvar` (filters) and a structured value over `kvar` (the element contributed by that index).  Operations on the list are
+carried out ONCE on the generic element (nested exploration, merged), which is the proof rule
+
+        for arbitrary k in [0, n):  body(elem(k)) has property P(k)          =>        for all k: P(k)
+
+i.e. the loop-invariant rule for map/filter-shaped loops with the invariant "the first k outputs are related to the first k
+inputs by P", whose inductive step is exactly the body on an arbitrary element.  Comprehensions, `any/all/in/len/sum/sorted/
+set/dict/enumerate/index/sort` are given their list semantics as quantified formulas over the index domain; symbols that
+the semantics introduces (counts, first/last matching index, sorting permutation, sums) are Skolem *functions* of the
+generic indices in scope, characterised by axioms that are assumed on the path (listed in `AXIOMS_DOC`).
+
+Soundness notes:
+  * a comprehension body is evaluated once at creation (Python evaluates it once per element, in order): bodies with side
+    effects on anything but their own fresh objects are outside the subset (the frozen-element check reports them);
+  * exceptions raised by a body are raised for the FIRST offending index (least-index Skolem constant);
+  * facts assumed while evaluating a generic element are exported universally quantified over the generic index.
 """
 from __future__ import annotations
-from .values import OutOfSubset
+import copy
+import z3
+from .values import (CTX, PyRaise, OutOfSubset, Infeasible, SNum, SBool, SLabel, SChoice, ClassVal, Inst, FunctionVal, BoundMethod,
+                     PartialVal, ModuleVal, Opaque, IDict, ISet, Builtin, AbstractCall, explore, force, lift, zbool, label_term, to_real)
+from . import ops
+from .ops import truth, eq_value, raise_py
 from .abstract import AList
+
+AXIOMS_DOC = [
+    'count(filter): 0 <= c <= n; c = 0 <=> no index present; c = n <=> every index present; c >= 2 <=> two distinct indices present',
+    'card(set of list): 0 <= c <= count; c = count <=> elements at distinct present indices are different; c = 0 <=> count = 0',
+    'positional view of a filtered list: strictly increasing embedding iota of [0,count) onto the present indices (with inverse)',
+    'sorted(): a permutation pi of [0,m) (with inverse), keys non-decreasing along pi, equal keys keep their order (stability)',
+    'list(set)/iteration of a set: an arbitrary permutation of the first occurrences (no order assumed)',
+    'first/last matching index: least/greatest index with the property (Skolem constant with minimality fact)',
+    'sum(): uninterpreted S with S = 0 if all terms are 0, S = term(0) if n = 1; two sums over the same domain are equal if their '
+    'terms are pointwise equal (extensionality, instantiated on demand at goal time)',
+]
+
+GENERIC = []          # generic index constants in scope (innermost last)
+CNT_MEMO = {}
+ABSENT = object()
+
+
+def I():
+    from .builtins_ import interp_ref
+    return interp_ref[0]
+
+
+def sk_int(stem):
+    """Fresh integer Skolem symbol: a function of the generic indices in scope."""
+    name = CTX.fresh(stem)
+    if not GENERIC:
+        return z3.Int(name)
+    f = z3.Function(name, *([z3.IntSort()] * len(GENERIC)), z3.IntSort())
+    return f(*GENERIC)
+
+
+def sk_real(stem):
+    name = CTX.fresh(stem)
+    if not GENERIC:
+        return z3.Real(name)
+    f = z3.Function(name, *([z3.IntSort()] * len(GENERIC)), z3.RealSort())
+    return f(*GENERIC)
+
+
+def sk_fun(stem, rng=None):
+    """Fresh function Int -> Int (or given range) that additionally depends on the generic indices in scope."""
+    name = CTX.fresh(stem)
+    rng = rng or z3.IntSort()
+    f = z3.Function(name, *([z3.IntSort()] * (len(GENERIC) + 1)), rng)
+    outer = list(GENERIC)
+    return lambda t: f(*outer, t)
+
+
+def fresh_index(stem='k'):
+    return z3.Int(CTX.fresh(stem))
+
+
+# ------------------------------------------------------------------------------------------------
+# substitution in structured values
+
+
+def subst(v, pairs):
+    if v is None or isinstance(v, (bool, int, float, complex, str)):
+        return v
+    if isinstance(v, SNum):
+        r = SNum(z3.substitute(v.re, *pairs), None if v.im is None else z3.substitute(v.im, *pairs),
+                 None if v.tag is None else z3.substitute(v.tag, *pairs), v.np, v.bigsum)
+        if v.absof is not None:
+            r.absof = tuple(z3.substitute(t, *pairs) for t in v.absof)
+        return r
+    if isinstance(v, SBool):
+        return SBool(z3.substitute(v.t, *pairs))
+    if isinstance(v, SLabel):
+        return SLabel(z3.substitute(v.t, *pairs))
+    if isinstance(v, SChoice):
+        return SChoice([(z3.substitute(c, *pairs), subst(x, pairs)) for c, x in v.alts])
+    if isinstance(v, Inst):
+        r = Inst(v.cls, {k: subst(x, pairs) for k, x in v.attrs.items()})
+        return r
+    if isinstance(v, IDict):
+        r = IDict()
+        r.items_ = [(subst(k, pairs), subst(x, pairs)) for k, x in v.items_]
+        return r
+    if isinstance(v, list):
+        return [subst(x, pairs) for x in v]
+    if isinstance(v, tuple):
+        return tuple(subst(x, pairs) for x in v)
+    if isinstance(v, ISet):
+        r = ISet()
+        r.elems = [subst(x, pairs) for x in v.elems]
+        return r
+    if isinstance(v, AL):
+        v.n      # materialise a derived list
+        r = copy.copy(v)
+        r.members = r.len_of = None
+        r.n = z3.substitute(v.n, *pairs)
+        r.present = z3.substitute(v.present, *pairs)
+        r.value = subst(v.value, pairs)
+        r.cache = {}
+        r._cnt = None
+        return r
+    if isinstance(v, ASet):
+        return ASet(subst(v.al, pairs))
+    if isinstance(v, ADict):
+        return ADict(subst(v.al, pairs))
+    if isinstance(v, AbstractCall):
+        return AbstractCall(v.name, {k: subst(x, pairs) for k, x in v.args.items()})
+    if isinstance(v, (ClassVal, ModuleVal, Builtin, Opaque)):
+        return v
+    if isinstance(v, (FunctionVal, BoundMethod, PartialVal)):
+        raise OutOfSubset('function value inside an element of an abstract sequence')
+    from .arrays import AArr
+    if isinstance(v, AArr):
+        r = v.copy()
+        r.data[:] = [subst(x, pairs) for x in r.data]
+        return r
+    raise OutOfSubset(f'substitution in {type(v).__name__}')
+
+
+def freeze(v, memo=None):
+    """Mark the mutable containers inside an element of an abstract INPUT list: mutating them is a frame violation."""
+    if isinstance(v, IDict):
+        v.frozen = True
+        for k, x in v.items_:
+            freeze(x)
+    elif isinstance(v, (list, tuple)):
+        for x in v:
+            freeze(x)
+    elif isinstance(v, Inst):
+        for x in v.attrs.values():
+            freeze(x)
+    elif isinstance(v, SChoice):
+        for _, x in v.alts:
+            freeze(x)
+    return v
+
+
+# ------------------------------------------------------------------------------------------------
+# generic evaluation
+
+
+def generic_eval(kvar, guards, thunk):
+    """Run `thunk` (which reads elements at the generic index kvar) on every feasible path under `guards`.
+
+    -> list of (z3 Bool local condition, kind, value).  Facts assumed inside are exported to the enclosing path as
+    ForAll kvar. guards /\\ decisions => fact."""
+    outer = CTX.path
+    GENERIC.append(kvar)
+    try:
+        outs = explore(thunk, base=outer.all_conds() + list(guards), want_local_conds='collect')
+    finally:
+        GENERIC.pop()
+    seen = set()
+    res = []
+    for o in outs:
+        for dec, fact in o.facts:
+            body = z3.Implies(z3.And(*(list(guards) + dec)), fact) if (guards or dec) else fact
+            q = z3.ForAll([kvar], body)
+            if q.get_id() not in seen:
+                seen.add(q.get_id())
+                CTX.path.assume(q)
+        res.append((z3.And(*o.conds) if o.conds else z3.BoolVal(True), o.kind, o.value))
+    return res
+
+
+def merged(alts):
+    alts = [(z3.simplify(c), v) for c, v in alts]
+    if not alts:
+        return None
+    return ops.merge(alts)
+
+
+def as_bool_term(v):
+    v = force_nofork(v)
+    if isinstance(v, bool):
+        return z3.BoolVal(v)
+    if isinstance(v, SBool):
+        return v.t
+    raise OutOfSubset('boolean expected in a quantified formula, got ' + type(v).__name__)
+
+
+def force_nofork(v):
+    if isinstance(v, SChoice):
+        if all(isinstance(x, (bool, SBool)) for _, x in v.alts):
+            return SBool(z3.Or(*[z3.And(c, zbool(x)) for c, x in v.alts]))
+        raise OutOfSubset('choice value in a quantified formula')
+    return v
+
+
+def forall_k(kvar, guards, body):
+    return z3.ForAll([kvar], z3.Implies(z3.And(*guards), body)) if guards else z3.ForAll([kvar], body)
+
+
+def exists_k(kvar, guards, body):
+    return z3.Exists([kvar], z3.And(*(list(guards) + [body])))
+
+
+# ------------------------------------------------------------------------------------------------
+
+
+class AL(AList):
+    """Abstract list.  n: z3 Int; kvar: z3 Int const; present: z3 Bool over kvar; value: structure over kvar."""
+
+    def __init__(self, n, kvar, present, value, origin=''):
+        self.n = n
+        self.kvar = kvar
+        self.present = z3.simplify(present) if not isinstance(present, bool) else z3.BoolVal(present)
+        self.value = value
+        self._init_rest(origin)
+
+    def _init_rest(self, origin):
+        self.origin = origin
+        self.cache = {}
+        self._cnt = None
+        self.frozen_input = False
+        self.distinct = False    # no two present positions hold equal elements (known by construction)
+        self.members = None      # lists whose elements, as a set, are exactly this list's elements (order/multiplicity-insensitive queries)
+        self.len_of = None       # thunk -> z3 Int: the length, when it is known without a positional view
+        self._lazy = None
+        self._dense = None
+
+    @classmethod
+    def derived(cls, origin, members, len_of, materialise, dense=True):
+        """A list defined from others (sorted, permuted, positional view...).  Its positional structure (n, kvar, present,
+        value) is only built, together with the Skolem functions and axioms it needs, when an element is accessed."""
+        self = cls.__new__(cls)
+        self._init_rest(origin)
+        self.members, self.len_of, self._lazy, self._dense = members, len_of, materialise, dense
+        # views of ONE list (sorted / permuted / positional) keep the property "no two positions hold equal elements"
+        self.distinct = len(members) == 1 and getattr(members[0], 'distinct', False)
+        return self
+
+    def __getattr__(self, name):
+        if name in ('n', 'kvar', 'present', 'value') and self.__dict__.get('_lazy') is not None:
+            lazy, self._lazy = self._lazy, None
+            src = lazy()
+            self.n, self.kvar, self.present, self.value = src.n, src.kvar, src.present, src.value
+            for extra in ('perm', 'embedding'):
+                if hasattr(src, extra):
+                    setattr(self, extra, getattr(src, extra))
+            return self.__dict__[name]
+        raise AttributeError(name)
+
+    def __repr__(self):
+        return f'<abstract list: {self.origin}>'
+
+    # -- basics
+    @property
+    def void(self):
+        """No element can exist on this path (the generic element was infeasible, e.g. the length is 0)."""
+        if self.members is not None and self.__dict__.get('_lazy') is not None:
+            return all(m.void for m in self.members)
+        return self.value is None
+
+    @property
+    def dense(self):
+        if self._dense is not None and self.__dict__.get('_lazy') is not None:
+            return self._dense
+        return z3.is_true(self.present)
+
+    @property
+    def length(self):
+        return self.len_term()
+
+    def rng(self, k):
+        return [k >= 0, k < self.n]
+
+    def guards(self, k):
+        g = self.rng(k)
+        if not self.dense:
+            g.append(z3.substitute(self.present, (self.kvar, k)))
+        return g
+
+    def get(self, k):
+        """-> (presence term, value) at index term k."""
+        key = k.get_id()
+        hit = self.cache.get(key)
+        if hit is not None and hit[0].eq(k):
+            return hit[1], hit[2]
+        pairs = [(self.kvar, k)]
+        p = z3.substitute(self.present, *pairs)
+        v = subst(self.value, pairs)
+        if self.frozen_input:
+            freeze(v)
+        self.cache[key] = (k, p, v)
+        return p, v
+
+    def len_term(self):
+        if self.void:
+            return z3.IntVal(0)
+        if self.len_of is not None:
+            if self._cnt is None:
+                self._cnt = self.len_of()
+            return self._cnt
+        if self.dense:
+            return self.n
+        if self._cnt is None:
+            # the count is a function of (domain, presence predicate): lists with the same filter share the symbol
+            canon = z3.Int('k!canon')
+            key = (self.n.sexpr(), z3.substitute(self.present, (self.kvar, canon)).sexpr(), tuple(g.get_id() for g in GENERIC))
+            if key in CNT_MEMO:
+                self._cnt = CNT_MEMO[key]
+                return self._cnt
+            c = sk_int('cnt')
+            CNT_MEMO[key] = c
+            k, k2 = fresh_index(), fresh_index()
+            P = lambda t: z3.substitute(self.present, (self.kvar, t))
+            CTX.path.assume(z3.And(c >= 0, c <= self.n))
+            CTX.path.assume((c == 0) == forall_k(k, self.rng(k), z3.Not(P(k))))
+            CTX.path.assume((c == self.n) == forall_k(k, self.rng(k), P(k)))
+            CTX.path.assume((c >= 2) == z3.Exists([k, k2], z3.And(k >= 0, k < k2, k2 < self.n, P(k), P(k2))))
+            self._cnt = c
+        return self._cnt
+
+    def len_value(self):
+        return SNum(self.len_term())
+
+    # -- construction helpers
+    def mapfilter(self, fn, origin='comprehension'):
+        """fn(element) -> value or ABSENT; evaluated once on the generic element.  Exceptions are raised for the first
+        offending index."""
+        if self.void:
+            return AL(z3.IntVal(0), fresh_index('g'), True, None, origin)
+        k = fresh_index('g')
+        p, x = self.get(k)
+        guards = self.guards(k)
+        outs = generic_eval(k, guards, lambda: fn(x))
+        rets = [(c, v) for c, kind, v in outs if kind == 'ret' and v is not ABSENT]
+        excs = [(c, v) for c, kind, v in outs if kind == 'exc']
+        if excs:
+            self._raise_first(k, guards, excs)
+        present = z3.And(p, z3.Or(*[c for c, _ in rets])) if rets else z3.BoolVal(False)
+        if len(rets) == len(outs) and not excs:
+            # no filter inside fn: presence is inherited
+            present = p
+        value = merged(rets) if rets else None
+        out = AL(self.n, k, present, value, origin)
+        if present is p and not self.dense:
+            out.len_of = self.len_term       # a pure map keeps the length
+        return out
+
+    def _raise_first(self, k, guards, excs):
+        E = z3.Or(*[c for c, _ in excs])
+        some = exists_k(k, guards, E)
+        if CTX.path.branch(some):
+            k0 = sk_int('first_exc')
+            sub = lambda t, at: z3.substitute(t, (k, at))
+            CTX.path.assume(z3.And(*[sub(g, k0) for g in guards] + [sub(E, k0)]))
+            j = fresh_index()
+            CTX.path.assume(forall_k(j, [j >= 0, j < k0], z3.Not(z3.And(*[sub(g, j) for g in guards] + [sub(E, j)]))))
+            for c, exc in excs[:-1]:
+                if CTX.path.branch(sub(c, k0)):
+                    raise PyRaise(subst(exc, [(k, k0)]))
+            c, exc = excs[-1]
+            CTX.path.assume(sub(c, k0))
+            raise PyRaise(subst(exc, [(k, k0)]))
+
+    def positional(self):
+        """Dense view: strictly increasing embedding of [0, count) onto the present indices."""
+        if self.dense:
+            return self
+        if self.__dict__.get('_pos') is not None:
+            return self._pos
+        self._pos = AL.derived(self.origin + ' (positional)', [self], self.len_term, self._positional_now)
+        return self._pos
+
+    def _positional_now(self):
+        m = self.len_term()
+        iota, rho = sk_fun('iota'), sk_fun('rho')
+        P = lambda t: z3.substitute(self.present, (self.kvar, t))
+        j, j2, k = fresh_index(), fresh_index(), fresh_index()
+        CTX.path.assume(forall_k(j, [j >= 0, j < m], z3.And(iota(j) >= 0, iota(j) < self.n, P(iota(j)), rho(iota(j)) == j)))
+        CTX.path.assume(forall_k(j, [j >= 0], z3.ForAll([j2], z3.Implies(z3.And(j < j2, j2 < m), iota(j) < iota(j2)))))
+        CTX.path.assume(forall_k(k, self.rng(k) + [P(k)], z3.And(rho(k) >= 0, rho(k) < m, iota(rho(k)) == k)))
+        g = fresh_index('g')
+        out = AL(m, g, True, subst(self.value, [(self.kvar, iota(g))]), self.origin + ' (positional)')
+        out.embedding = (self, iota, rho)
+        return out
+
+    def permuted(self, why):
+        """Dense list with the same elements in an order given by a fresh permutation (no order facts)."""
+        return AL.derived(why, [self], self.len_term, lambda: self._permuted_now(why))
+
+    def _permuted_now(self, why):
+        src = self.positional()
+        m = src.n
+        pi, sigma = sk_fun('pi'), sk_fun('sigma')
+        i = fresh_index()
+        CTX.path.assume(forall_k(i, [i >= 0, i < m], z3.And(pi(i) >= 0, pi(i) < m, sigma(pi(i)) == i, sigma(i) >= 0, sigma(i) < m, pi(sigma(i)) == i)))
+        g = fresh_index('g')
+        out = AL(m, g, True, subst(src.value, [(src.kvar, pi(g))]), why)
+        out.perm = (src, pi, sigma)
+        return out
+
+    def first_occurrences(self):
+        """Sub-list of the elements that do not occur at an earlier present index (the distinct elements, in order)."""
+        if self.__dict__.get('_fo') is None:
+            self._fo = AL.derived(self.origin + ' (distinct)', [self], ASet(self).card_term, self._first_occurrences_now, dense=False)
+            self._fo.distinct = True
+        return self._fo
+
+    def _first_occurrences_now(self):
+        k, j = self.kvar, fresh_index()
+        pj, vj = self.get(j)
+        e = eq_nofork(vj, self.value)
+        earlier = z3.Exists([j], z3.And(j >= 0, j < k, pj, e))
+        out = AL(self.n, k, z3.And(self.present, z3.Not(earlier)), self.value, self.origin + ' (distinct)')
+        # every element has a first occurrence (well-ordering of the indices; the solver cannot derive it)
+        fo = sk_fun('firstocc')
+        i = fresh_index()
+        pi_, vi = self.get(i)
+        pf, vf = out.get(fo(i))
+        CTX.path.assume(forall_k(i, self.rng(i) + [pi_], z3.And(fo(i) >= 0, fo(i) <= i, pf, eq_nofork(vf, vi))))
+        return out
+
+    # -- queries
+    def quant(self, fn, universal):
+        if self.members is not None:
+            parts = [m.quant(fn, universal) for m in self.members]
+            return ops.s_and(*parts) if universal else ops.s_or(*parts)
+        if self.void:
+            return universal
+        k = fresh_index('q')
+        p, x = self.get(k)
+        guards = self.guards(k)
+        outs = generic_eval(k, guards, lambda: fn(x))
+        terms = []
+        for c, kind, v in outs:
+            if kind == 'exc':
+                terms.append((c, z3.BoolVal(False)))      # an undefined statement does not hold
+            else:
+                terms.append((c, as_bool_term(v)))
+        body = z3.Or(*[z3.And(c, t) for c, t in terms]) if terms else z3.BoolVal(universal)
+        return SBool(forall_k(k, guards, body) if universal else exists_k(k, guards, body))
+
+    def forall(self, pred):
+        return self.quant(lambda x: as_truth(I().call(pred, [x], {})), True)
+
+    def exists(self, pred):
+        return self.quant(lambda x: as_truth(I().call(pred, [x], {})), False)
+
+    def any_(self):
+        return self.quant(lambda x: truth(x), False)
+
+    def all_(self):
+        return self.quant(lambda x: truth(x), True)
+
+    def contains(self, x):
+        return self.quant(lambda e: eq_value(e, x), False)
+
+    def getitem(self, idx):
+        idx = force(idx)
+        if isinstance(idx, slice) or isinstance(idx, tuple):
+            raise OutOfSubset('slice of an abstract sequence')
+        if self.void:
+            raise_py('IndexError', 'list index out of range')
+        src = self.positional()
+        if isinstance(idx, bool):
+            idx = int(idx)
+        if isinstance(idx, int):
+            t = z3.IntVal(idx) if idx >= 0 else src.n + idx
+        elif isinstance(idx, SNum) and idx.is_int:
+            t = idx.re
+            if not CTX.path.branch(t >= 0):
+                t = src.n + t
+        else:
+            raise OutOfSubset('index of an abstract sequence: ' + type(idx).__name__)
+        if not CTX.path.branch(z3.And(t >= 0, t < src.n)):
+            raise_py('IndexError', 'list index out of range')
+        return src.get(z3.simplify(t))[1]
+
+    def index_of(self, x):
+        """list.index(x): least position with an equal element; ValueError if there is none."""
+        if self.void:
+            raise_py('ValueError', 'x is not in list')
+        src = self.positional()
+        k = fresh_index('q')
+        _, e = src.get(k)
+        outs = generic_eval(k, src.rng(k), lambda: eq_value(e, x))
+        E = z3.Or(*[z3.And(c, as_bool_term(v)) for c, kind, v in outs if kind == 'ret'])
+        if not CTX.path.branch(exists_k(k, src.rng(k), E)):
+            raise_py('ValueError', 'x is not in list')
+        k0 = sk_int('index')
+        sub = lambda t, at: z3.substitute(t, (k, at))
+        j = fresh_index()
+        CTX.path.assume(z3.And(k0 >= 0, k0 < src.n, sub(E, k0)))
+        CTX.path.assume(forall_k(j, [j >= 0, j < k0], z3.Not(sub(E, j))))
+        return SNum(k0)
+
+    def attr(self, interp, name):
+        if name == 'sort':
+            def do_sort(args, kw):
+                if self.frozen_input:
+                    note_frame_violation('in-place sort of an input list')
+                old = self.clone()
+                old.__dict__.pop('_pos', None), old.__dict__.pop('_fo', None)
+                new = sorted_(old, kw.get('key'), truth(kw.get('reverse', False)))
+                for k in ('n', 'kvar', 'present', 'value', '_pos', '_fo', 'perm', 'embedding'):
+                    self.__dict__.pop(k, None)
+                self.__dict__.update({k: v for k, v in new.__dict__.items() if k != 'frozen_input'})
+                self.cache = {}
+                return None
+            return Builtin('list.sort', do_sort)
+        if name == 'index':
+            return Builtin('list.index', lambda args, kw: self.index_of(args[0]))
+        if name == 'copy':
+            return Builtin('list.copy', lambda args, kw: self.clone())
+        if name == 'count':
+            return Builtin('list.count', lambda args, kw: SNum(self.mapfilter(lambda e: e if truth(eq_value(e, args[0])) else ABSENT).len_term()))
+        if name in ('append', 'extend', 'insert', 'remove', 'pop', 'clear', 'reverse', '__setitem__', '__delitem__'):
+            if self.frozen_input:
+                note_frame_violation(f'list.{name} on an input list')
+            raise OutOfSubset(f'list.{name} on an abstract sequence')
+        raise_py('AttributeError', f"'list' object has no attribute {name!r}")
+
+    def clone(self):
+        r = copy.copy(self)
+        r.cache = {}
+        r.frozen_input = False
+        return r
+
+
+def as_truth(v):
+    v = force(v)
+    if isinstance(v, (bool, SBool)):
+        return v
+    return truth(v)
+
+
+def eq_nofork(a, b):
+    """z3 Bool for value equality of two structures without forking the path."""
+    e = eq_value(a, b)
+    return z3.BoolVal(e) if isinstance(e, bool) else zbool(e)
+
+
+FRAME_NOTES = []
+
+
+def note_frame_violation(what):
+    """A mutation of an element of an abstract input list.  Recorded with the condition under which it happens."""
+    conds = list(CTX.path.all_conds())
+    FRAME_NOTES.append((what, z3.And(*conds) if conds else z3.BoolVal(True), list(GENERIC)))
+
+
+def frame_clause():
+    """z3 Bool: no recorded mutation of an input element is reachable."""
+    terms = []
+    for what, cond, gens in FRAME_NOTES:
+        terms.append(z3.Not(z3.Exists(gens, cond)) if gens else z3.Not(cond))
+    return z3.And(*terms) if terms else z3.BoolVal(True)
+
+
+# ------------------------------------------------------------------------------------------------
 
 
 class ASet:
-    pass
+    """Set of the elements of an abstract list."""
+
+    def __init__(self, al):
+        self.al = al
+        self._card = None
+
+    def card_term(self):
+        if self._card is None:
+            al = self.al
+            c = sk_int('card')
+            cnt = al.len_term()
+            k, j = fresh_index(), fresh_index()
+            pk, vk = al.get(k)
+            pj, vj = al.get(j)
+            e = eq_nofork(vk, vj)
+            inj = z3.ForAll([k, j], z3.Implies(z3.And(k >= 0, k < j, j < al.n, pk, pj), z3.Not(e)))
+            CTX.path.assume(z3.And(c >= 0, c <= cnt))
+            CTX.path.assume((c == cnt) == inj)
+            CTX.path.assume((c == 0) == (cnt == 0))
+            self._card = c
+        return self._card
+
+    def len_value(self):
+        return SNum(self.card_term())
+
+    @property
+    def length(self):
+        return self.card_term()
+
+    def contains(self, x):
+        return self.al.contains(x)
+
+    def forall(self, pred):
+        return self.al.forall(pred)
+
+    def exists(self, pred):
+        return self.al.exists(pred)
+
+    def attr(self, interp, name):
+        if name == 'union':
+            def union(args, kw):
+                out = self
+                for a in args:
+                    out = ASet(concat(out.al, as_al(a)))
+                return out
+            return Builtin('set.union', union)
+        if name == 'copy':
+            return Builtin('set.copy', lambda a, k: ASet(self.al))
+        if name in ('issubset', 'issuperset'):
+            def sub(args, kw):
+                other = force(args[0])
+                a, b = (self, other) if name == 'issubset' else (other, self)
+                return subset(a, b)
+            return Builtin('set.' + name, sub)
+        raise OutOfSubset(f'set.{name} on an abstract set')
 
 
-def _no(*a, **k):
-    raise OutOfSubset('abstract sequences are not built yet')
+def subset(a, b):
+    al = as_al(a)
+    return al.quant(lambda e: contains_any(b, e), True)
 
 
-abstract_eq = comprehension = bigsum = sorted_ = list_of_set = set_of = enumerate_ = zip_ = product_ = concat = _no
+def contains_any(c, x):
+    c = force(c)
+    if isinstance(c, (AL, ASet, ADict)):
+        return c.contains(x)
+    return I().contains(c, x)
+
+
+class ADict:
+    """Dictionary built from an abstract list of (key, value) pairs; later pairs win."""
+
+    def __init__(self, al):
+        self.al = al
+        self._keys = None
+
+    def keys_al(self):
+        if self._keys is None:
+            pairs = self.al
+            keys = AL(pairs.n, pairs.kvar, pairs.present, pairs.value[0] if isinstance(pairs.value, tuple) else None, 'dict keys')
+            self._keys = keys.first_occurrences()
+        return self._keys
+
+    def len_value(self):
+        return SNum(self.keys_al().len_term())
+
+    @property
+    def length(self):
+        return self.keys_al().len_term()
+
+    def contains(self, key):
+        return self.al.quant(lambda kv: eq_value(kv[0], key), False)
+
+    def getitem(self, key):
+        pairs = self.al
+        if pairs.void:
+            raise_py('KeyError', key)
+        k = fresh_index('q')
+        p, kv = pairs.get(k)
+        guards = pairs.guards(k)
+        outs = generic_eval(k, guards, lambda: eq_value(kv[0], key))
+        E = z3.Or(*[z3.And(c, as_bool_term(v)) for c, kind, v in outs if kind == 'ret'])
+        if not CTX.path.branch(exists_k(k, guards, E)):
+            raise_py('KeyError', key)
+        k0 = sk_int('lookup')
+        sub = lambda t, at: z3.substitute(t, (k, at))
+        j = fresh_index()
+        CTX.path.assume(z3.And(*[sub(g, k0) for g in guards] + [sub(E, k0)]))
+        CTX.path.assume(forall_k(j, [j > k0, j < pairs.n], z3.Not(z3.And(*[sub(g, j) for g in guards] + [sub(E, j)]))))
+        return pairs.get(k0)[1][1]
+
+    def values_al(self):
+        keys = self.keys_al()
+        k = keys.kvar
+        # value stored under the key first seen at index k: the value of the LAST pair with that key
+        j = fresh_index()
+        pj, kvj = self.al.get(j)
+        _, kvk = self.al.get(k)
+        last = sk_fun('lastkey')
+        e = eq_nofork(kvj[0], kvk[0])
+        CTX.path.assume(forall_k(k, keys.guards(k), z3.And(last(k) >= k, last(k) < self.al.n,
+                                                        z3.substitute(z3.And(pj, e), (j, last(k))),
+                                                        z3.ForAll([j], z3.Implies(z3.And(j > last(k), j < self.al.n, pj), z3.Not(e))))))
+        return AL(keys.n, k, keys.present, subst(self.al.value[1], [(self.al.kvar, last(k))]), 'dict values')
+
+    def attr(self, interp, name):
+        if name == 'keys':
+            return Builtin('dict.keys', lambda a, k: self.keys_al())
+        if name == 'values':
+            return Builtin('dict.values', lambda a, k: self.values_al())
+        if name == 'get':
+            def get(args, kw):
+                if truth(self.contains(args[0])):
+                    return self.getitem(args[0])
+                return args[1] if len(args) > 1 else None
+            return Builtin('dict.get', get)
+        raise OutOfSubset(f'dict.{name} on an abstract dictionary')
+
+
+# ------------------------------------------------------------------------------------------------
+# entry points used by the interpreter and the builtins
+
+
+def as_al(x):
+    x = force(x)
+    if isinstance(x, AL):
+        return x
+    if isinstance(x, ASet):
+        return x.al
+    if isinstance(x, ADict):
+        return x.keys_al()
+    if isinstance(x, (list, tuple)):
+        return from_concrete(list(x))
+    if isinstance(x, ISet):
+        return from_concrete(list(x.elems))
+    raise OutOfSubset('abstract sequence expected, got ' + type(x).__name__)
+
+
+def from_concrete(xs):
+    k = fresh_index('g')
+    if not xs:
+        return AL(z3.IntVal(0), k, True, None, 'concrete []')
+    alts = [(k == i, x) for i, x in enumerate(xs[:-1])] + [(k >= len(xs) - 1, xs[-1])]
+    return AL(z3.IntVal(len(xs)), k, True, merged(alts), 'concrete list')
+
+
+def concat(a, b):
+    a, b = as_al(a), as_al(b)
+    out = AL.derived('concatenation', [a, b], lambda: a.len_term() + b.len_term(), lambda: _concat_now(a, b), dense=None)
+    return out
+
+
+def _concat_now(a, b):
+    k = fresh_index('g')
+    pa, va = a.get(k)
+    pb, vb = b.get(k - a.n)
+    first = k < a.n
+    present = z3.If(first, pa, pb)
+    if a.value is None:
+        value = vb
+    elif b.value is None:
+        value = va
+    else:
+        value = merged([(first, va), (z3.Not(first), vb)])
+    return AL(z3.simplify(a.n + b.n), k, present, value, 'concatenation')
+
+
+def comprehension(interp, src, g, e, env, mod, kind):
+    from .interp import Env
+    src0 = force(src)
+    al = as_al(src0)
+    if isinstance(src0, ASet):
+        al = al.first_occurrences().permuted('iteration over a set')
+
+    def body(x):
+        cenv = Env(parent=env)
+        interp.assign(g.target, x, cenv, mod)
+        for c in g.ifs:
+            if not truth(interp.ev(c, cenv, mod)):
+                return ABSENT
+        if kind == 'dict':
+            return (interp.ev(e.key, cenv, mod), interp.ev(e.value, cenv, mod))
+        return interp.ev(e.elt, cenv, mod)
+    out = al.mapfilter(body)
+    if kind == 'set':
+        return ASet(out)
+    if kind == 'dict':
+        return ADict(out)
+    return out
+
+
+def bigsum(it, start=0):
+    al = as_al(it)
+    k = al.kvar
+    v = al.value
+    if v is None:
+        return start
+    v = force_nofork_num(v)
+    zero = z3.RealVal(0)
+    t_re = z3.If(al.present, v.rez(), zero) if not al.dense else v.rez()
+    t_im = (z3.If(al.present, v.imz(), zero) if not al.dense else v.imz()) if v.im is not None else None
+    if v.tag is not None:
+        raise OutOfSubset('sum over possibly non-finite terms')
+    s_re = sk_real('sum.re')
+    s_im = sk_real('sum.im') if t_im is not None else None
+    sub = lambda t, at: z3.substitute(t, (k, at))
+    for s, t in ((s_re, t_re), (s_im, t_im)):
+        if s is None:
+            continue
+        CTX.path.assume(z3.Implies(forall_k(k, al.rng(k), t == 0), s == 0))
+        CTX.path.assume(z3.Implies(al.n == 1, s == sub(t, z3.IntVal(0))))
+    BIGSUMS.append({'n': al.n, 'k': k, 're': (s_re, t_re), 'im': (s_im, t_im), 'generic': list(GENERIC)})
+    res = SNum(s_re, s_im)
+    return I().binop('+', start, res) if not (isinstance(start, int) and start == 0) else res
+
+
+BIGSUMS = []
+
+
+def force_nofork_num(v):
+    if isinstance(v, SChoice):
+        vals = [lift(x) for _, x in v.alts]
+        return ops.merge([(c, l) for (c, _), l in zip(v.alts, vals)])
+    return lift(v)
+
+
+def extensionality_facts(solve):
+    """Pairs of sums over the same index domain whose terms are pointwise equal are equal.  `solve(assertions)` -> 'unsat'..."""
+    facts = []
+    for a_i, A in enumerate(BIGSUMS):
+        for B in BIGSUMS[a_i + 1:]:
+            if A['generic'] or B['generic'] or not z3.simplify(A['n'] == B['n']).eq(z3.BoolVal(True)) and not A['n'].eq(B['n']):
+                continue
+            for part in ('re', 'im'):
+                (sa, ta), (sb, tb) = A[part], B[part]
+                if sa is None or sb is None:
+                    continue
+                tb2 = z3.substitute(tb, (B['k'], A['k']))
+                k = A['k']
+                if solve([k >= 0, k < A['n'], ta != tb2]) == 'unsat':
+                    facts.append(sa == sb)
+    return facts
+
+
+def sorted_(it, key=None, reverse=False):
+    it = force(it)
+    al = as_al(it)
+    strict = False
+    if isinstance(it, ASet):
+        al = al.first_occurrences()
+    strict = key is None and al.distinct      # distinct elements: the order is strict (a fact the solver would need induction for)
+    if al.void:
+        return AL(z3.IntVal(0), fresh_index('g'), True, None, 'sorted')
+    return AL.derived('sorted', [al], al.len_term, lambda: _sorted_now(al, key, reverse, strict))
+
+
+def _sorted_now(al, key, reverse, strict):
+    src = al.positional()
+    m = src.n
+    pi, sigma = sk_fun('pi'), sk_fun('sigma')
+    i, j = fresh_index(), fresh_index()
+    CTX.path.assume(forall_k(i, [i >= 0, i < m], z3.And(pi(i) >= 0, pi(i) < m, sigma(pi(i)) == i, sigma(i) >= 0, sigma(i) < m, pi(sigma(i)) == i)))
+    # key of the generic element
+    k = fresh_index('q')
+    _, x = src.get(k)
+    if key is None:
+        kv = x
+    else:
+        outs = generic_eval(k, src.rng(k), lambda: I().call(key, [x], {}))
+        if any(kind == 'exc' for _, kind, _ in outs):
+            raise OutOfSubset('sort key raises ' + '; '.join(f'{v.cls.name}{v.attrs.get("args", ())}' for _, kind, v in outs if kind == 'exc'))
+        kv = merged([(c, v) for c, kind, v in outs])
+    kv = force_nofork_scalar(kv)
+    ki, kj = subst(kv, [(k, pi(i))]), subst(kv, [(k, pi(j))])
+    le = as_bool_term(ops.compare('>=' if reverse else '<=', ki, kj))
+    lt = as_bool_term(ops.compare('>' if reverse else '<', ki, kj))
+    same = as_bool_term(eq_value(ki, kj))
+    order = z3.And(lt if strict else le, z3.Implies(same, pi(i) < pi(j)))
+    CTX.path.assume(z3.ForAll([i, j], z3.Implies(z3.And(i >= 0, i < j, j < m), order)))
+    g = fresh_index('g')
+    out = AL(m, g, True, subst(src.value, [(src.kvar, pi(g))]), 'sorted')
+    out.perm = (src, pi, sigma)
+    return out
+
+
+def force_nofork_scalar(v):
+    if isinstance(v, SChoice):
+        return ops.merge(v.alts)
+    return v
+
+
+def list_of_set(s):
+    return s.al.first_occurrences().permuted('list(set)')
+
+
+def set_of(al):
+    return ASet(as_al(al))
+
+
+def enumerate_(it, start=0):
+    if as_al(it).void:
+        return AL(z3.IntVal(0), fresh_index('g'), True, None, 'enumerate')
+    src = as_al(it).positional()
+    g = fresh_index('g')
+    _, x = src.get(g)
+    idx = SNum(g) if (isinstance(start, int) and start == 0) else I().binop('+', start, SNum(g))
+    return AL(src.n, g, True, (idx, x), 'enumerate')
+
+
+def zip_(its):
+    raise OutOfSubset('zip over abstract sequences')
+
+
+def product_(its, rep):
+    raise OutOfSubset('itertools.product over abstract sequences')
+
+
+def abstract_eq(a, b):
+    a, b = force(a), force(b)
+    if isinstance(a, ASet) or isinstance(b, ASet):
+        return ops.s_and(subset(a, b), subset(b, a))
+    if isinstance(a, ADict) or isinstance(b, ADict):
+        raise OutOfSubset('equality of abstract dictionaries')
+    if not isinstance(a, (AL, list, tuple)) or not isinstance(b, (AL, list, tuple)):
+        return False
+    a, b = as_al(a).positional(), as_al(b).positional()
+    k = fresh_index('q')
+    _, va = a.get(k)
+    _, vb = b.get(k)
+    outs = generic_eval(k, a.rng(k), lambda: eq_value(va, vb))
+    body = z3.Or(*[z3.And(c, as_bool_term(v)) for c, kind, v in outs if kind == 'ret'])
+    return SBool(z3.And(a.n == b.n, forall_k(k, a.rng(k), body)))
+
+
+def indices(xs):
+    """range(len(xs)) as an abstract list of integers."""
+    xs = force(xs)
+    if isinstance(xs, (AL, ASet, ADict)):
+        n = as_al(xs).positional().n if not isinstance(xs, AL) else xs.positional().n
+    elif isinstance(xs, SNum) and xs.is_int:
+        n = xs.re
+    elif isinstance(xs, int):
+        n = z3.IntVal(xs)
+    else:
+        return list(range(len(xs)))
+    g = fresh_index('g')
+    return AL(n, g, True, SNum(g), 'indices')
+
+
+def reset():
+    CNT_MEMO.clear()
+    del GENERIC[:]
+    del FRAME_NOTES[:]
+    del BIGSUMS[:]
